@@ -42,6 +42,16 @@ class PathGen:
                 pool += [x for x in list(node.keys())[:3]]
             v = r.choice(pool)
             return MolT(key=lit(copy_value(v)), index=lit(copy_value(v)))
+        if r.random() < 0.04:
+            # key / index conditions that LOOK like plain equality but are not (pre-processed, or another callable):
+            # such a part must never be abbreviated to a bare key
+            n = r.choice([0, 1, 2, 3, 2.0, 1.0])
+            kc = Leaf(r.choice(["KeyLength", "KeyDataType", "Key"]), r.choice(["equal_to", "equal_to", "not_equal_to", "less_than"]), [n])
+            if kc.cls == "KeyDataType":
+                kc.args = [r.choice([int, str, float])]
+            if r.random() < 0.5:
+                return MolT(index=lit(n) if isinstance(n, int) else None, key=cnd(kc))
+            return MapT(key=cnd(kc))
         if isinstance(node, dict) and node:
             keys = list(node.keys())
             if k > explicit_p:
@@ -66,7 +76,7 @@ class PathGen:
             return ListT()  # inapplicable on purpose
         if isinstance(node, list) and node:
             if k > explicit_p:
-                i = r.randrange(len(node)) if r.random() < 0.85 else r.choice([len(node), -1, 7])
+                i = r.randrange(len(node)) if r.random() < 0.8 else r.choice([len(node), -1, -len(node), 7, float(len(node) - 1), True])
                 return Prim(i)
             kk = r.random()
             if kk < 0.2:
@@ -83,7 +93,7 @@ class PathGen:
                             value=cnd(self.value_cond(node)) if r.random() < 0.3 else None)
             return MapT()  # inapplicable on purpose
         # scalar / empty container: any part (must match nothing)
-        return r.choice([Prim("a"), Prim(0), MapT(), ListT(), MolT(), Prim(2.5), Prim(True)])
+        return r.choice([Prim("a"), Prim(0), MapT(), ListT(), MolT(), Prim(2.5), Prim(True), Prim(-1), Prim(1.0), Prim("0")])
 
     def select(self, part, node):
         """Children of node the real part selects (used only to steer generation)."""
